@@ -541,6 +541,8 @@ class Symex:
                 obj.attrs[t.attr] = v
             elif isinstance(obj, T):
                 self.effects.append(T("setattr", obj, t.attr, v))
+            elif isinstance(obj, Func):
+                pass    # metadata of a function object (__doc__, __name__) does not influence its evaluation
             else:
                 self.unsupported(t)
         else:
